@@ -101,6 +101,24 @@ func Exercise(data []byte, c *harness.Ctx) (msg string) {
 	if err := mon.Valid(cc); err != nil {
 		return "Compact of a parsed profile is invalid: " + err.Error()
 	}
+	// what Compact and Merge hand back is written and copied like any other profile
+	b.Reset()
+	if err := cc.WriteUncompressed(&b); err != nil {
+		return "WriteUncompressed of the compacted copy failed: " + err.Error()
+	}
+	if _, err := profile.ParseData(b.Bytes()); err != nil {
+		return "the compacted copy does not parse back: " + err.Error()
+	}
+	_ = cc.Copy()
+	if mg, err := profile.Merge([]*profile.Profile{p, cp}); err == nil {
+		b.Reset()
+		if err := mg.WriteUncompressed(&b); err != nil {
+			return "WriteUncompressed of Merge(p, copy of p) failed: " + err.Error()
+		}
+		_ = mg.Copy()
+	} else {
+		return "Merge of a parsed profile with its own copy failed: " + err.Error()
+	}
 	// anything the parser returns survives write-then-parse unchanged (C01 part 4)
 	if msg, ok := c01.RoundTrip(p, "accepted input"); !ok {
 		return msg
@@ -340,7 +358,25 @@ func textMutate(r *rand.Rand, doc []byte) []byte {
 			break
 		}
 		i := r.Intn(len(lines))
-		switch r.Intn(12) {
+		switch r.Intn(13) {
+		case 12: // the memory map holds nothing but one to three adjacent huge-page pieces
+			for j, l := range lines {
+				if strings.Contains(l, "MAPPED_LIBRARIES:") || strings.Contains(l, "Memory map:") {
+					lines = lines[:j]
+					break
+				}
+			}
+			lines = append(lines, "MAPPED_LIBRARIES:")
+			at := uint64(0x400000)
+			for k, n := 0, 1+r.Intn(3); k < n; k++ {
+				sz := uint64(1+r.Intn(4)) << 21
+				perm := "r-xp"
+				if k > 0 && r.Intn(4) == 0 {
+					perm = "rw-p"
+				}
+				lines = append(lines, fmt.Sprintf("%08x-%08x %s 00000000 00:00 0 /anon_hugepage%s", at, at+sz, perm, []string{"", " (deleted)"}[r.Intn(2)]))
+				at += sz
+			}
 		case 11: // the first record of the document refers to a previous one / is empty
 			for j, l := range lines {
 				if strings.Contains(l, "stack: ---") || strings.HasPrefix(l, "--- Thread") {
